@@ -214,6 +214,13 @@ def run(ctx, rep) -> None:
 
     rep.rule("C02.7", "every per-step hyperparameter and flag of the group step is computed from this step's param group and bound to the formal of the same meaning")
     rep.attempt("_wiring", _wiring, ctx, _Proxy(rep, "C01.5", "C02.7"))
+    from .c04 import _change_guards
+    from .c05 import blocks_are_views
+
+    rep.rule("C02.8", "the masked lists the step works on are re-derived whenever the set of gradients changes (guard on the selector, never on a count)")
+    rep.attempt("_change_guards", _change_guards, ctx, rep, "C02.8")
+    rep.rule("C02.9", "the blocks the update is applied to are views of the parameters (no possibly-copying operation between a parameter and its blocks)")
+    rep.attempt("blocks_are_views", blocks_are_views, ctx, rep, "C02.9")
     from .common import per_group_fresh
 
     rep.rule("C02.6", "the phase switch is per group: each group owns its step counter and grafting state (objects created per group)")
